@@ -122,3 +122,41 @@ Section Pay.
       | _, _ => SpErr
       end.
 End Pay.
+
+(* ---------- block level: validate the block's transactions, then execute them ---------- *)
+
+(* function-name tokens: 1 = "payFees"; 0 = an ordinary (not built-in) transaction *)
+Definition mf_fn_pay_fees : Z := 1.
+
+Inductive mf_txn := TxPay (client in_round : Z) | TxOther (fn : Z).
+Definition mf_txn_name (t : mf_txn) : Z := match t with TxPay _ _ => mf_fn_pay_fees | TxOther fn => fn end.
+
+(* miner.ValidateTransactions: one table of the built-in function names seen so far, shared by
+   all validation batches; a second built-in transaction of the same name rejects the block *)
+Fixpoint mf_block_valid (builtin : Z -> bool) (seen : list Z) (txns : list Z) : bool :=
+  match txns with
+  | [] => true
+  | f :: tl => if builtin f then (if existsb (Z.eqb f) seen then false else mf_block_valid builtin (f :: seen) tl)
+               else mf_block_valid builtin seen tl
+  end.
+
+Section Block.
+  Variable chargef : f64 -> Z -> option Z.
+  Variable sharef : Z -> Z -> Z -> option Z.
+  Variable splitf : f64 -> Z -> option Z.
+  Variables (gn : mf_gn) (bk : mf_block) (live : bool) (md : list nat) (sd : list (list nat)).
+
+  Definition mf_state : Type := (option mf_node * list mf_node)%type.
+
+  Definition mf_pay (st : mf_state) (client in_round : Z) : sp_res mf_state :=
+    mf_pay_fees chargef sharef splitf gn bk client in_round (fst st) live (snd st) md sd.
+
+  (* executing the transactions of a block in order; a failed transaction changes nothing;
+     transactions other than payFees do not touch the miner / sharder stake pools *)
+  Fixpoint mf_run_block (st : mf_state) (txns : list mf_txn) : mf_state :=
+    match txns with
+    | [] => st
+    | TxPay c r :: tl => match mf_pay st c r with SpOk st' => mf_run_block st' tl | _ => mf_run_block st tl end
+    | TxOther _ :: tl => mf_run_block st tl
+    end.
+End Block.
